@@ -105,6 +105,38 @@ pub fn check_workspace(ctx: &mut Ctx, ws: &Workspace, sw: Option<&ScopedWs>, ori
     let an = host.snapshot();
     let (_d, gs) = groups(&an, ws).map_err(with_case)?;
     let wh = hash_str(&case.to_string());
+    // typed chain workspaces carry their own ground truth (the scope-aware generator's table is
+    // C05's business): every occurrence leads to the declaration Gleam's typing binds it to
+    if let (Some(sw), true) = (sw, origin.starts_with("record value")) {
+        for o in sw.occs.iter().filter(|o| o.role == scoped::Role::Use) {
+            let Some(d) = o.expected else { continue };
+            let decl = &sw.decls[d];
+            ctx.eval();
+            let t: Tok = (o.file as u32, o.range.0 as u32, o.range.1 as u32);
+            let got = goto(&an, t).map_err(with_case)?;
+            let ok = matches!(got, Some(g) if g.0 as usize == decl.file && (g.1 as usize) <= decl.name_range.0 && decl.name_range.1 <= g.2 as usize);
+            if !ok {
+                return Err(Failure::new(
+                    format!(
+                        "`{}` at {} ({}) is by its type the {} `{}` declared at {}:{}..{}, but go-to-definition gives {:?}",
+                        o.text,
+                        show(ws, &t),
+                        o.what,
+                        decl.kind.name(),
+                        decl.name,
+                        decl.file,
+                        decl.name_range.0,
+                        decl.name_range.1,
+                        got
+                    ),
+                    case.clone(),
+                )
+                .sig("kind", "chain-ground-truth")
+                .sig("decl_kind", decl.kind.name()));
+            }
+            ctx.class("typed chain: occurrence checked against its declaration by type");
+        }
+    }
     for (gi, g) in gs.iter().enumerate() {
         let kind = sw
             .and_then(|sw| sw.decls.iter().find(|dd| dd.file as u32 == g.target.0 && dd.name_range.0 as u32 >= g.target.1 && dd.name_range.1 as u32 <= g.target.2))
@@ -167,6 +199,101 @@ pub fn check_workspace(ctx: &mut Ctx, ws: &Workspace, sw: Option<&ScopedWs>, ori
 /// A record value travelling through modules that do not import the module of its type: field
 /// reads (`found.name`) name the field without any import of the declaring module.
 pub fn gen_chain_workspace(c: &mut Choices) -> Workspace {
+    gen_chain_scoped(c).ws
+}
+
+/// All occurrences of the identifier `name` in `text` (whole words outside string literals) for
+/// which `keep(previous non-blank byte, next non-blank byte)` holds.
+fn word_occurrences(text: &str, name: &str, keep: &dyn Fn(u8, u8) -> bool) -> Vec<(usize, usize)> {
+    let b = text.as_bytes();
+    let is_id = |x: u8| x.is_ascii_alphanumeric() || x == b'_';
+    let mut out = vec![];
+    let mut i = 0;
+    let mut in_str = false;
+    while i < b.len() {
+        if b[i] == b'"' {
+            in_str = !in_str;
+            i += 1;
+            continue;
+        }
+        if !in_str && b[i..].starts_with(name.as_bytes()) && (i == 0 || !is_id(b[i - 1])) && (i + name.len() >= b.len() || !is_id(b[i + name.len()])) {
+            let prev = b[..i].iter().rev().copied().find(|x| !x.is_ascii_whitespace()).unwrap_or(b' ');
+            let next = b[i + name.len()..].iter().copied().find(|x| !x.is_ascii_whitespace()).unwrap_or(b' ');
+            if keep(prev, next) {
+                out.push((i, i + name.len()));
+            }
+            i += name.len();
+            continue;
+        }
+        i += 1;
+    }
+    out
+}
+
+/// The chain workspace together with what Gleam's typing makes of it: for each record field and
+/// for the functions reached through a module qualifier, the declaration and every occurrence
+/// bound to it (the texts are built so that `.name` / `name:` can only mean the field, and
+/// `module.name` only the function).
+pub fn gen_chain_scoped(c: &mut Choices) -> ScopedWs {
+    use crate::gen::scoped::{Decl, Occ, OccTier, Role, DK};
+    let (ws, fields, fns) = gen_chain_inner(c);
+    let mut sw = ScopedWs { ws, ..Default::default() };
+    for f in &fields {
+        let mut all: Vec<(usize, (usize, usize))> = vec![];
+        for (fi, file) in sw.ws.files.iter().enumerate() {
+            if file.module.is_none() {
+                continue;
+            }
+            for r in word_occurrences(&file.text, f, &|p, n| p == b'.' || n == b':') {
+                all.push((fi, r));
+            }
+        }
+        // the declaration is the first `name:` inside a `type` definition
+        let Some(di) = all.iter().position(|(fi, r)| {
+            let t = &sw.ws.files[*fi].text;
+            let next = t.as_bytes()[r.1..].iter().copied().find(|x| !x.is_ascii_whitespace());
+            let prev = t.as_bytes()[..r.0].iter().rev().copied().find(|x| !x.is_ascii_whitespace());
+            next == Some(b':') && t[..r.0].rfind("type ").map(|ty| !t[ty..r.0].contains("fn ")).unwrap_or(false) && matches!(prev, Some(b'(') | Some(b','))
+        }) else {
+            continue;
+        };
+        let (dfile, drange) = all[di];
+        sw.decls.push(Decl { kind: DK::Field, file: dfile, name: f.clone(), name_range: drange, focus_max: drange, public: true });
+        let d = sw.decls.len() - 1;
+        for (k, (fi, r)) in all.iter().enumerate() {
+            sw.occs.push(Occ { file: *fi, range: *r, text: f.clone(), role: if k == di { Role::Def } else { Role::Use }, expected: Some(d), tier: OccTier::Core, shadow_depth: 0, what: "record field by its type" });
+        }
+    }
+    for (module, f) in &fns {
+        let Some(dfile) = sw.ws.files.iter().position(|x| x.module.as_deref() == Some(module.as_str())) else { continue };
+        let decl_at = word_occurrences(&sw.ws.files[dfile].text, f, &|_, n| n == b'(').into_iter().find(|r| sw.ws.files[dfile].text[..r.0].trim_end().ends_with("fn"));
+        let Some(drange) = decl_at else { continue };
+        sw.decls.push(Decl { kind: DK::Fn, file: dfile, name: f.clone(), name_range: drange, focus_max: drange, public: true });
+        let d = sw.decls.len() - 1;
+        sw.occs.push(Occ { file: dfile, range: drange, text: f.clone(), role: Role::Def, expected: Some(d), tier: OccTier::Core, shadow_depth: 0, what: "function declaration" });
+        for (fi, file) in sw.ws.files.iter().enumerate() {
+            if file.module.is_none() {
+                continue;
+            }
+            let acc = module.rsplit('/').next().unwrap_or(module);
+            for r in word_occurrences(&file.text, f, &|p, _| p == b'.') {
+                if file.text[..r.0].trim_end().trim_end_matches('.').trim_end().ends_with(acc) {
+                    sw.occs.push(Occ { file: fi, range: r, text: f.clone(), role: Role::Use, expected: Some(d), tier: OccTier::Core, shadow_depth: 0, what: "function through its module qualifier" });
+                }
+            }
+            if fi == dfile {
+                for r in word_occurrences(&file.text, f, &|p, n| p != b'.' && n == b'(') {
+                    if r != drange {
+                        sw.occs.push(Occ { file: fi, range: r, text: f.clone(), role: Role::Use, expected: Some(d), tier: OccTier::Core, shadow_depth: 0, what: "function called in its own module" });
+                    }
+                }
+            }
+        }
+    }
+    sw
+}
+
+fn gen_chain_inner(c: &mut Choices) -> (Workspace, Vec<String>, Vec<(String, String)>) {
     let (ty, ctor) = *c.pick(&[("Person", "Person"), ("Rec", "Mk"), ("T", "T")]);
     let (f1, f2) = *c.pick(&[("name", "age"), ("l", "x"), ("a", "b")]);
     let hops = 1 + c.below(3);
@@ -177,7 +304,7 @@ pub fn gen_chain_workspace(c: &mut Choices) -> Workspace {
     push(
         &mut ws,
         "person",
-        format!("pub type {ty} {{\n  {ctor}({f1}: String, {f2}: Int)\n}}\n\npub fn new(n) {{\n  {ctor}({f1}: n, {f2}: 1)\n}}\n\npub fn first(p: {ty}) {{\n  p.{f1}\n}}\n\npub fn alpha(n) {{\n  case n {{\n    0 -> new(\"a\")\n    _ -> beta(n - 1)\n  }}\n}}\n\npub fn beta(n) {{\n  {ctor}({f1}: alpha(n).{f1}, {f2}: n)\n}}\n"),
+        format!("pub type {ty} {{\n  {ctor}({f1}: String, {f2}: Int)\n}}\n\npub fn new(n) {{\n  {ctor}({f1}: n, {f2}: 1)\n}}\n\npub fn first(p: {ty}) {{\n  p.{f1}\n}}\n\npub fn alpha(n) {{\n  case n {{\n    0 -> new(\"a\")\n    _ -> beta(n - 1)\n  }}\n}}\n\npub fn beta(n) {{\n  {ctor}({f1}: alpha(n).{f1}, {f2}: n)\n}}\n\npub type Names =\n  List({ty})\n\npub type Same =\n  {ty}\n"),
     );
     let mut prev = "person".to_string();
     let mut prev_fn = "new".to_string();
@@ -197,6 +324,25 @@ pub fn gen_chain_workspace(c: &mut Choices) -> Workspace {
     if c.chance(128) {
         text.push_str(&format!("\npub fn both(id) {{\n  let p = {prev}.{prev_fn}(id)\n  #(p.{f2}, p.{f1}, show(id))\n}}\n"));
     }
+    // annotations naming an alias of another module in front of a local record type, then uses of
+    // the local type's field and of a qualified function: whatever resolving the foreign alias
+    // switches must be switched back
+    let mut fields = vec![f1.to_string(), f2.to_string()];
+    let mut fns = vec![("person".to_string(), "first".to_string()), ("person".to_string(), "new".to_string())];
+    if also_import && c.chance(170) {
+        let alias = *c.pick(&["Names", "Same"]);
+        let order = c.below(3);
+        text.push_str("\npub type Loc {\n  Loc(tag: Int, note: String)\n}\n\nfn util(qb: Loc) {\n  qb\n}\n");
+        match order {
+            // (parameter and variable names differ from every field name: `name:` must mean a field)
+            0 => text.push_str(&format!("\npub fn mixed(qa: person.{alias}, qb: Loc) {{\n  let qc: person.{alias} = qa\n  #(qb.tag, qc, util(qb).note, person.new(\"m\"))\n}}\n")),
+            1 => text.push_str(&format!("\npub fn mixed(qb: Loc, qa: person.{alias}) {{\n  let qc: person.{alias} = qa\n  let qd: Loc = Loc(tag: qb.tag, note: \"n\")\n  #(qd.note, qc, person.first(person.new(\"m\")))\n}}\n")),
+            _ => text.push_str(&format!("\npub fn mixed(qa: person.{alias}) {{\n  let qf = fn(qx: person.{alias}, qy: Loc) {{ #(qx, qy.tag) }}\n  let qz = Loc(tag: 1, note: person.first(person.new(\"m\")))\n  qf(qa, qz).1 + qz.tag\n}}\n")),
+        }
+        fields.push("tag".to_string());
+        fields.push("note".to_string());
+    }
+    fns.push((prev.clone(), prev_fn.clone()));
     push(&mut ws, "report", text);
     let toml = ws.files.len();
     ws.files.push(crate::gen::scoped::WsFile { path: "/ws/app/gleam.toml".into(), pkg: 0, text: "name = \"app\"\n".into(), module: None });
@@ -212,13 +358,16 @@ pub fn gen_chain_workspace(c: &mut Choices) -> Workspace {
         });
         ws.packages.push(crate::gen::scoped::Pkg { name: "".into(), root: "/ws/loose".into(), is_local: true, deps: vec![], toml_file: toml });
     }
-    ws
+    (ws, fields, fns)
 }
 
 pub fn gen_any_workspace(c: &mut Choices, corpus_files: &[(String, String)], allow_damage: bool) -> (Workspace, Option<ScopedWs>, &'static str) {
     let k = c.weighted(&[6, 1, if allow_damage { 3 } else { 0 }, if allow_damage { 1 } else { 0 }, 1]);
     match k {
-        4 => (gen_chain_workspace(c), None, "record value through modules that do not import its type"),
+        4 => {
+            let sw = gen_chain_scoped(c);
+            (sw.ws.clone(), Some(sw), "record value through modules that do not import its type")
+        }
         0 => {
             let cfg = Cfg { shadowed_guards: true, ..Cfg::default() };
             let (sw, _) = scoped::gen_workspace(c, &cfg);
